@@ -44,7 +44,7 @@ func init() {
 	prop("C06", []string{"P-LOCALDOT", "P-ISNULL", "P-VALIDALIAS@@!is never accepted", "P-REGISTER", "P-RENDERITEMS", "P-CTOR@path"},
 		"isLocal is exact string equality; isDotImport is, for an unregistered path, exactly hints[path] = {\".\", alias} and otherwise exactly \"the registered name is .\"; a package token is null exactly for dot-imported or local paths; \".\" is accepted as a name unconditionally and first; prefix / numbering never touch a name not known to differ from \".\"; the list renderer registers every package token before its null test, so a dot import is still emitted.",
 		"resolution of the bare identifier by the Go compiler")
-	prop("C07", []string{"P-MAPRANGE", "W-NONDET-API", "P-TAG", "W-RENDER-STORES"},
+	prop("C07", []string{"P-MAPRANGE", "W-NONDET-API", "P-TAG", "W-RENDER-STORES", "P-DICT@rendered against the file the Dict is rendered against", "P-DICT@sorted together before anything is written"},
 		"Every range over a map in jen has only order-insensitive effects (updates keyed by the range key, collected slices sorted before any other read, no output / registration / concatenation inside the loop) and nothing in jen consults a clock, randomness, the environment or formats an address. One known finding on the pinned tree: Dict.render renders keys (and thereby registers imports) inside its map range.",
 		"determinism of sort / fmt / go/format themselves; the order among Dict pairs whose keys render identically")
 	prop("C08", []string{"W-RENDER-STORES", "W-IMPORTS-WRITERS", "P-REGISTER", "P-FRAGMENT", "P-GROUPRENDER", "P-DOT-STABLE", "P-MAPRANGE@@!registration function"},
